@@ -300,17 +300,32 @@ func VerifC11NilChannel() {
 	v.Assert("C11.nil-channel-safe", !panicked || !strings.Contains(msg, "nil"))
 }
 
+// verifCompileErrProfile: a profile the engine refuses. Its extension block holds eleven rules with an
+// unsafe variable each: the engine stops at its limit of ten errors and appends a marker that has
+// no location, so the error value has both kinds of entries.
 const verifCompileErrProfile = `#%Validation Profile 1.0
 profile: Test
+rego_extensions: |
+  helper_1 { unbound_1 }
+  helper_2 { unbound_2 }
+  helper_3 { unbound_3 }
+  helper_4 { unbound_4 }
+  helper_5 { unbound_5 }
+  helper_6 { unbound_6 }
+  helper_7 { unbound_7 }
+  helper_8 { unbound_8 }
+  helper_9 { unbound_9 }
+  helper_10 { unbound_10 }
+  helper_11 { unbound_11 }
 violation:
   - v1
 validations:
   v1:
     message: m
     targetClass: apiContract.EndPoint
-    rego: |
-      x = http.send({"method": "get", "url": "http://localhost"})
-      $result = false
+    propertyConstraints:
+      core.name:
+        minCount: 1
 `
 
 // VerifC11EventsNative replays a VerifC11Events counterexample with real inputs that
